@@ -74,6 +74,7 @@ type Options struct {
 	AllRich     bool // every account is rich
 	Wasm        bool // a WASM contract at an inner-contract address, callable and upgradable (upgrade signer registered)
 	Candidates  bool // elected validator candidates in the genesis (so that evidence in blocks has somebody to score)
+	MultiSign   bool // four validators known to the application; MultiSignAccountTx can rotate the upgrade signer set (implies an upgrade signer)
 	RealCache   bool // keep the mempool's tx cache (4 heaps of 100k pre-sized slots and 4 never-ending goroutines per node)
 }
 
@@ -107,6 +108,8 @@ type Sim struct {
 	blkFwdPaid     bool                        // ... through a forwarder (whether the inner call succeeded the books cannot know) ...
 	blkKill        bool                        // ... a self-destruct ...
 	blkSelfKill    bool                        // ... in its own favour (the books know the destroyed amount only if payment and self-destruct do not share a block)
+	ValKeys        []crypto.PrivKeyEd25519     // the validators whose signatures make a MultiSignAccountTx (Options.MultiSign)
+	SignerSet      []world.Acct                // the committed multi-signer set for contract upgrades (each power 1, minimum 1)
 	UnderpayRate   int                         // > 0: one confidential spend in UnderpayRate pays LESS than the required fee (it must never be offered to a proposer)
 	BurntAfterKill []string                    // payments that reached the contract after it had self-destructed earlier in the SAME block (they are destroyed; counted in Destroyed)
 	CandKeys       []crypto.PubKey             // elected candidates of the genesis (Options.Candidates), then one stranger
@@ -226,6 +229,20 @@ func New(t *rapid.T, o Options) *Sim {
 		spec.Accounts = append(spec.Accounts, world.GenesisAccount{Addr: s.WasmAddr, Code: s.WasmCodes["log"], Balance: big.NewInt(0), Tokens: map[common.Address]*big.Int{}})
 		s.Universe[s.WasmAddr] = struct{}{}
 		s.Universe[s.Upgrader.Addr] = struct{}{}
+	}
+	if o.MultiSign {
+		for i := 0; i < 4; i++ {
+			k := crypto.GenPrivKeyEd25519FromSecret([]byte(fmt.Sprintf("chainsim-validator-%d", i)))
+			s.ValKeys = append(s.ValKeys, k)
+			spec.Validators = append(spec.Validators, &types.Validator{Address: k.PubKey().Address(), PubKey: k.PubKey(), VotingPower: 1})
+		}
+		if spec.UpgradeSigner == nil {
+			s.Upgrader = world.DetAcct(900)
+			spec.UpgradeSigner = &s.Upgrader
+			s.Universe[s.Upgrader.Addr] = struct{}{}
+		}
+		s.SignerSet = []world.Acct{s.Upgrader}
+		s.Universe[types.MultiSignNonceAddr] = struct{}{}
 	}
 	if o.Candidates {
 		nc := rapid.IntRange(1, 3).Draw(t, "ncandidates")
@@ -792,6 +809,17 @@ func (s *Sim) AfterCommit(block *types.Block, gen map[common.Hash]*Tx, pre *Hold
 				}
 			}
 		}
+		if m, isM := tx.(*types.MultiSignAccountTx); isM && len(s.ValKeys) > 0 { // (a committed rotation takes effect whatever its receipt says)
+			var set []world.Acct
+			for _, e := range m.Signers {
+				for _, c := range s.signerCandidates() {
+					if c.Addr == e.Addr {
+						set = append(set, c)
+					}
+				}
+			}
+			s.SignerSet = set
+		}
 		utx, isU := tx.(*types.UTXOTransaction)
 		if !isU {
 			continue
@@ -907,6 +935,11 @@ func SenderOf(tx types.Tx) (common.Address, uint64, bool) {
 	case *types.TokenTransaction:
 		f, _ := v.From()
 		return f, v.Nonce(), true
+	case *types.MultiSignAccountTx:
+		return types.MultiSignNonceAddr, v.Nonce(), true
+	case *types.ContractUpgradeTx:
+		f, _ := v.From()
+		return f, v.Nonce(), true
 	case *types.UTXOTransaction:
 		// (tx.Nonce() is a cache that only CheckBasic fills; read the input itself)
 		for _, in := range v.Inputs {
@@ -971,4 +1004,53 @@ func (s *Sim) GenUpgrade(t *rapid.T) *Tx {
 	name := rapid.SampledFrom([]string{"prints", "prints", "log", "getbalance"}).Draw(t, "upgradeto")
 	nonce := s.W.App.GetNonce(s.Upgrader.Addr)
 	return &Tx{Tx: world.UpgradeTx(s.Upgrader, s.WasmAddr, nonce, s.WasmCodes[name]), Kind: "wasm-upgrade", From: s.Upgrader.Addr, Desc: fmt.Sprintf("wasm-upgrade to %s.wasm nonce %d", name, nonce)}
+}
+
+// signerCandidates are the accounts a rotation can make upgrade signers.
+func (s *Sim) signerCandidates() []world.Acct {
+	return append([]world.Acct{s.Upgrader, world.DetAcct(901), world.DetAcct(902)}, s.Accts...)
+}
+
+// GenMultiSign draws a MultiSignAccountTx that rotates the upgrade signer set (1-2 signers of power 1, minimum power 1), signed
+// by all validators or - rarely - by too few of them.
+func (s *Sim) GenMultiSign(t *rapid.T) *Tx {
+	if len(s.ValKeys) == 0 {
+		return nil
+	}
+	cands := s.signerCandidates()
+	n := rapid.IntRange(1, 2).Draw(t, "nsigners")
+	first := rapid.IntRange(0, len(cands)-1).Draw(t, "firstsigner")
+	var set []world.Acct
+	var powers []int32
+	for i := 0; i < n; i++ {
+		set = append(set, cands[(first+i)%len(cands)])
+		powers = append(powers, 1)
+	}
+	keys := s.ValKeys
+	if rapid.IntRange(0, 5).Draw(t, "toofewvals") == 0 {
+		keys = keys[:2]
+	}
+	nonce := s.W.App.GetNonce(types.MultiSignNonceAddr)
+	tx := world.MultiSignTx(nonce, 1, set, powers, keys)
+	var names []string
+	for _, a := range set {
+		names = append(names, a.Addr.Hex()[:8])
+	}
+	return &Tx{Tx: tx, Kind: "multisign", From: types.MultiSignNonceAddr, Desc: fmt.Sprintf("multisign nonce %d: upgrade signers become %v (%d validator signatures)", nonce, names, len(keys))}
+}
+
+// GenUpgradeBy draws an upgrade of the WASM contract signed by a member of the COMMITTED signer set, or - stale - by the
+// signer the genesis registered.
+func (s *Sim) GenUpgradeBy(t *rapid.T) *Tx {
+	if s.WasmCodes == nil || len(s.SignerSet) == 0 {
+		return s.GenUpgrade(t)
+	}
+	signer := s.SignerSet[rapid.IntRange(0, len(s.SignerSet)-1).Draw(t, "upgsigner")]
+	if rapid.IntRange(0, 4).Draw(t, "genesisigner") == 0 {
+		signer = s.Upgrader
+	}
+	s.Universe[signer.Addr] = struct{}{}
+	name := rapid.SampledFrom([]string{"prints", "prints", "log", "getbalance"}).Draw(t, "upgradeto")
+	nonce := s.W.App.GetNonce(signer.Addr)
+	return &Tx{Tx: world.UpgradeTx(signer, s.WasmAddr, nonce, s.WasmCodes[name]), Kind: "wasm-upgrade", From: signer.Addr, Desc: fmt.Sprintf("wasm-upgrade to %s.wasm by %s nonce %d", name, signer.Addr.Hex()[:8], nonce)}
 }
